@@ -13,7 +13,9 @@ using namespace vh;
 namespace {
 enum { O_ALLOC = 0, O_FREE = 1 };
 const char* const opnames[] = {"allocate", "deallocate", nullptr};
-struct Obj { long tag; long pad; };
+// constructor / destructor leave marks: the lazy pool destroys an object when it is deallocated and constructs it again when it is handed out,
+// which must never overlap with another holder's use of the same object
+struct Obj { long tag; long pad; Obj() : tag(0), pad(0) {} ~Obj() { *(volatile long*)&tag = -1; } };
 
 struct Book {
     Ctx* ctx; std::map<void*, int> owner;   // currently allocated objects
